@@ -42,13 +42,18 @@ class Axis:
 
         # will be added as blocks are added to mesh
         self.neighbours: Set[Axis] = set()
+        # the same neighbours in the order they were added; a set of objects iterates
+        # in an order that depends on memory addresses and changes from run to run
+        self.neighbour_list: List[Axis] = []
 
     def add_neighbour(self, axis: "Axis") -> None:
         """Adds an 'axis' from another block if it shares at least one wire"""
         for this_wire in self.wires:
             for nei_wire in axis.wires:
                 if this_wire.is_coincident(nei_wire):
-                    self.neighbours.add(axis)
+                    if axis not in self.neighbours:
+                        self.neighbours.add(axis)
+                        self.neighbour_list.append(axis)
 
     def is_aligned(self, other: "Axis") -> bool:
         """Returns True if wires of the other axis are aligned
@@ -81,7 +86,7 @@ class Axis:
             # no need to change anything
             return False
 
-        for neighbour in self.neighbours:
+        for neighbour in self.neighbour_list:
             # a neighbour whose wires were all copied from its own neighbours
             # is defined but holds no chops; there's nothing to copy from it
             if neighbour.is_defined and len(neighbour.wires.chops) > 0:
